@@ -399,6 +399,16 @@ func stmtFact(st ast.Stmt, consts map[string]string) []string {
 			for _, s := range idents(body, "StatusCode") {
 				calls = append(calls, "status:"+consts[s])
 			}
+			// how the clause ends: return:err = last result is not the nil identifier, return:ok = it is
+			if n := len(cl.Body); n > 0 {
+				if rs, ok := cl.Body[n-1].(*ast.ReturnStmt); ok && len(rs.Results) >= 2 {
+					if id, ok := rs.Results[len(rs.Results)-1].(*ast.Ident); ok && id.Name == "nil" {
+						calls = append(calls, "return:ok")
+					} else {
+						calls = append(calls, "return:err")
+					}
+				}
+			}
 			cases = append(cases, fmt.Sprintf("(%s, %s)", coqStrList(cs), coqStrList(calls)))
 		}
 		return []string{mk("SSwitch", []string{exprStr(x.Tag)}, nil, nil, false, "["+strings.Join(cases, "; ")+"]")}
